@@ -71,4 +71,46 @@ def stress(prop, tier, seed, ctx):
     return res
 
 
-EXTRA = {"tables": tables, "stress": stress}
+NET_CLASSES = [
+    ("although no chain", {"C15", "C12"}),
+    ("was due but did not happen", {"C14"}),
+    ("wait-for graph:", {"C15", "C14", "C12"}),
+    ("poisoned", {"C12", "C15"}),
+    ("never returned", {"C14", "C12", "C03"}),
+    ("another request's reply", {"C03", "C12"}),
+    ("names the cycle", {"C14"}),
+]
+
+
+def netcorr(prop, tier, seed, ctx):
+    """multi-actor histories of the real crate (deadlock-detection on) replayed on the Lean protocol model"""
+    bindir = build_feat(ctx)
+    rep = os.path.join(ctx["BUILD"], f"netcorr_{prop}.json")
+    n = 2500 if tier == "thorough" else 250
+    rc, out, err = ctx["sh"]([os.path.join(bindir, "netcorr"), "--driver", ctx["DRIVER"], "--seed", str(seed), "--n", str(n),
+                              "--corpus", os.path.join(ctx["ROOT"], "corpus"), "--report", rep], timeout=3600)
+    if rc not in (0, 3):
+        raise ctx["Infra"](f"netcorr failed rc={rc}:\n" + err[-2000:])
+    r = json.load(open(rep))
+    res = {"evidence": {"histories": r["histories"], "summary": r["summary"], "fails": r["fails"], "deadlock_panics_observed": r["deadlocks"],
+                        "asks_timed_out": r["timeouts"], "handler_panics": r["panics"], "events": r["events"], "sample": r["sample"]},
+           "violations": [], "broken": []}
+    if not r["summary"]:
+        res["broken"].append("netreplay produced no summary (driver failure)")
+    for f in r["failing"]:
+        msg = f["fail"]
+        props = set()
+        for key, ps in NET_CLASSES:
+            if key in msg:
+                props |= ps
+        if "does not allow" in msg or not props:
+            res["broken"].append("protocol correspondence: " + msg)
+            props |= {"C12", "C14", "C15"}
+        if prop in props:
+            res["violations"].append(("history-failure", "real history disagrees with the wait-for protocol: " + msg,
+                                      {"failing_input": {"script": f["script"], "trace": f["trace"]}, "seed": seed}))
+            break
+    return res
+
+
+EXTRA = {"tables": tables, "stress": stress, "netcorr": netcorr}
